@@ -258,11 +258,22 @@ impl Default for ValCfg {
 
 pub const ALPHABET: [&str; 24] = ["a", "b", "A", "z", "0", " ", "é", "ß", "中", "😀", "\n", "%", "_", "\\", "\"", ",", ".", "*", "K", "İ", "σ", "\u{301}", "\u{0}", "~"];
 
+/// length up to `max`; when `max` allows it, half of the draws sit next to a power-of-two boundary (scratch buffers, block
+/// sizes, one-byte length prefixes).  For `max < 64` the decoding is the plain uniform one (no extra tape byte).
+fn long_len(t: &mut Tape, max: usize) -> usize {
+    if max >= 64 && t.bool() {
+        let b = *t.pick(&[63usize, 64, 65, 127, 128, 129, 255, 256, 257, 511, 512, 513, 1023, 1024, 1025, 4095, 4096, 4097]);
+        if b <= max { b } else { max }
+    } else {
+        t.below(max + 1)
+    }
+}
+
 pub fn gen_string(t: &mut Tape, max: usize) -> String {
     let n = match t.below(10) {
         0 => 0,
         1 => *t.pick(&[12usize, 13, 11, 4, 5, 8, 32, 33]),
-        2 => t.below(max + 1),
+        2 => long_len(t, max),
         _ => t.below(7),
     };
     let mut s = String::new();
@@ -280,7 +291,7 @@ pub fn gen_bytes(t: &mut Tape, max: usize) -> Vec<u8> {
     let n = match t.below(8) {
         0 => 0,
         1 => *t.pick(&[12usize, 13, 8, 9, 32, 33]),
-        2 => t.below(max + 1),
+        2 => long_len(t, max),
         _ => t.below(6),
     };
     (0..n).map(|_| *t.pick(&[0u8, 0xff, 1, 0x61, 0x7f, 0x80, 0xfe, 0x62])).collect()
